@@ -37,8 +37,12 @@ EXHAUSTIVE = {'quick': True, 'thorough': True}
 
 KINDS = ['json_dict', 'json_list', 'str', 'int', 'numpy', 'pandas', 'generator', 'lazy', 'listnp', 'dir', 'continues', 'empty_gen', 'empty_listnp', 'empty_dir', 'figure']
 RAISE_KINDS = {
-    'json_dict': ['raise_before', 'raise_after_log', 'bad_type', 'unserializable'],
-    'json_list': ['raise_before', 'raise_after_log', 'bad_type', 'unserializable'],
+    'json_dict': ['raise_before', 'raise_after_log', 'bad_type', 'near_type', 'unserializable'],
+    'json_list': ['raise_before', 'raise_after_log', 'bad_type', 'near_type', 'unserializable'],
+    'int': ['raise_before', 'raise_after_log', 'bad_type', 'near_type'],
+    'str': ['raise_before', 'raise_after_log', 'bad_type', 'near_type'],
+    'numpy': ['raise_before', 'raise_after_log', 'bad_type', 'near_type'],
+    'pandas': ['raise_before', 'raise_after_log', 'bad_type', 'near_type'],
     'generator': ['raise_before', 'raise_in_generator', 'bad_type'],
     'dir': ['raise_before', 'raise_mid_dir', 'bad_type'],
     'continues': ['raise_before', 'raise_mid_dir'],
